@@ -288,6 +288,21 @@ static void obs_lock_event(int tid, void *addr, int acquired, int spin)
 				sgroup[g].sole_excl = n_excl == 1 ? last_excl : -1;
 			}
 		}
+		/* Whatever this interest held of an undelivered wake-up can only be handed to what is in the
+		 * tree at this instant.  If nothing of its signal and scope is, the obligation lapses here and
+		 * now: an interest whose registration completes later (while this call is still on its way
+		 * out) was never a candidate.  (Deciding this after the call returned raised a false alarm.) */
+		for (g = 0; g < nsgroup; g++) {
+			int n_rem = 0;
+			if (!sgroup[g].open || sgroup[g].sig != PL->obj[id].p[0] || sgroup[g].scope != scope_of(id))
+				continue;
+			for (i = 0; i < PL->nobj; i++)
+				if (i != id && PL->obj[i].kind == K_SIGNAL && PL->obj[i].p[0] == PL->obj[id].p[0] &&
+				    scope_of(i) == scope_of(id) && sig_in_tree(i))
+					n_rem++;
+			if (n_rem == 0)
+				sgroup[g].open = 0;
+		}
 	}
 }
 
